@@ -90,6 +90,16 @@ CLAIMS = {
   "note": "Rounding arithmetic for times outside the int64 nanosecond range is not decided. Trusted: go/types, engine/absint.",
   "technique": "finite-domain abstract interpretation over time orderings",
  },
+ "C21": {
+  "text": "tumble's per-record callback is interpreted symbolically: window_start = truncate(time − offset, length) + offset with the same offset, window_end = window_start + length, both appended in order to the untouched values, the record forwarded once, metadata handed through; range's loop is `for i := start; i < end; i++` producing NewInt(i) as an addition with an unmodified counter; one poll round retracts the previous snapshot (with the previous time, only if there is one), resets the snapshot memory, runs the source (rows stamped with this round's time, emitted as additions, remembered) and then sends a watermark with this round's time; every table-valued-function argument is declared, type-asserted and read as the same kind.",
+  "note": "time.Truncate arithmetic and wall-clock behaviour are not decided. Trusted: go/types, engine/absint.",
+  "technique": "symbolic abstract interpretation of the callbacks + loop-shape and argument-kind table checks",
+ },
+ "C22": {
+  "text": "The wrapper's protocol is decided on all paths: settle-before-forward on watermarks, buffer-only on records, final flush; both partition loops keep a record iff EventTime.After(watermark) and hand the kept ones over; the emission loop is interpreted per pending record class (crossed out / retraction / addition) × partner class (crossed out / addition / mismatch / match): crossed-out records are never emitted or consumed, an addition and its matching live retraction are crossed out together, everything else is emitted exactly once; no slice is made with a length and then only appended to.",
+  "note": "Equality of the consolidated changelogs for every history follows by induction on the pending list from these per-record facts; the induction is not mechanised. Trusted: go/types, engine/absint.",
+  "technique": "finite-domain abstract interpretation of nested loops by element class + make/append def-use rule",
+ },
 }
 
 NOT_APPLICABLE = {
